@@ -75,7 +75,7 @@ DIRECTED = [
 ]
 
 
-def run_history(ctx, seed: int, length: int, script: Optional[List[str]] = None) -> Tuple[List[str], List[Dict[str, Any]], Dict[str, Any]]:
+def run_history(ctx, seed: int, length: int, script: Optional[List[str]] = None, backwards: bool = False) -> Tuple[List[str], List[Dict[str, Any]], Dict[str, Any]]:
     import random
     import datashard
     import datashard.file_manager as fm
@@ -111,6 +111,8 @@ def run_history(ctx, seed: int, length: int, script: Optional[List[str]] = None)
                      "delete_snapshot_cur": 0.7, "collect": 0.85, "failed_commit": 0.95}[forced]
             if rng.random() < 0.6:
                 clock.ms += rng.choice([0, 0, 1, 5, 1000])       # equal timestamps are frequent on purpose
+            if backwards and rng.random() < 0.35:
+                clock.ms -= rng.choice([1, 7, 2500, 600000])     # the wall clock steps BACK (NTP step, another writer's lagging host)
             state = P.read_table_independent(root)
             cur = state["current"]
             op = "append"
@@ -148,6 +150,8 @@ def run_history(ctx, seed: int, length: int, script: Optional[List[str]] = None)
                 elif r < 0.78 and state["snapshots"]:
                     op = "delete_snapshot"
                     sid = rng.choice(list(state["snapshots"]))
+                    if forced is None and cur in state["snapshots"] and rng.random() < 0.3:
+                        sid = cur
                     if forced == "delete_snapshot_cur" and cur is not None:
                         sid = cur
                     elif forced == "delete_snapshot_old":
@@ -215,7 +219,9 @@ def run_history(ctx, seed: int, length: int, script: Optional[List[str]] = None)
                 gid = got.snapshot_id if got is not None else None
                 lookups.append({"snaps": [(sid, state["snapshots"][sid]["ts"]) for sid in state["snapshot_order"]],
                                 "log": [sid for sid in state["log_order"]], "t": tq, "impl": gid, "ref": want})
-                if gid != want:
+                if gid != want and not backwards:
+                    # (with a clock that stepped back, "not newer than t" and "most recently committed" pull apart: the lookup is
+                    #  then compared with the model only -- DESIGN.md C09 interpretation; repointing and by-id are judged always)
                     viol.append(f"after step {step} time_travel(timestamp={tq}) returned {gid}, the most recently committed retained "
                                 f"snapshot not newer than it is {want} (snapshots {[(s, state['snapshots'][s]['ts']) for s in state['log_order'] if s in state['snapshots']]})")
             stats["equal_timestamp_pairs"] += sum(1 for a, b in zip(tss, tss[1:]) if a == b) + (len(state["snapshots"]) - len(tss))
@@ -270,17 +276,25 @@ def run(ctx) -> None:
         for rep in range(1 if quick else 6):
             jobs.append((1000 * di + rep, script))
     jobs += [(ctx.rng.randrange(1 << 30), None) for _ in range(nh)]
-    for seed, script in jobs:
-        viol, lookups, stats = run_history(ctx, seed, length, script)
+    # repointing after deleting the current snapshot, on a clock that steps back: directed
+    for rep in range(2 if quick else 10):
+        jobs.append((7000 + rep, ["append", "append", "append_multi", "delete_snapshot_cur", "append", "delete_snapshot_cur", "collect"]))
+        jobs.append((7100 + rep, ["append", "append", "delete_files", "delete_snapshot_cur", "delete_snapshot_cur"]))
+    nback = 0
+    for ji, (seed, script) in enumerate(jobs):
+        backwards = ji % 3 == 2 or seed >= 7000 and seed < 7200          # a third of the histories run on a clock that also steps back
+        nback += 1 if backwards else 0
+        viol, lookups, stats = run_history(ctx, seed, length, script, backwards)
         ctx.count(stats["steps"], ("hist", seed))
         for k, v in stats.items():
             agg[k] = agg.get(k, 0) + v
         for v in viol[:3]:
             ctx.violation("history:" + v.split(" ")[3 if v.startswith("after step") else 0][:24], v,
-                          {"seed": seed, "length": length, "script": script})
+                          {"seed": seed, "length": length, "script": script, "backwards": backwards})
         all_lookups.extend(lookups)
     ctx.stats["histories"] = len(jobs)
     ctx.stats["directed_histories"] = len(jobs) - nh
+    ctx.stats["histories_with_clock_stepping_back"] = nback
     ctx.stats.update(agg)
     ctx.stats["timestamp_lookups"] = len(all_lookups)
     if all_lookups:
@@ -295,6 +309,6 @@ def replay(ctx, payload) -> int:
     if "seed" not in c:
         print("replay: no concrete case")
         return 2
-    viol, _l, _s = run_history(ctx, c["seed"], c["length"], c.get("script"))
+    viol, _l, _s = run_history(ctx, c["seed"], c["length"], c.get("script"), bool(c.get("backwards")))
     print("replay:", "STILL FAILS: " + viol[0] if viol else "passes now")
     return 1 if viol else 0
